@@ -6,6 +6,7 @@ import MV.Driver.Hist
 import MV.Driver.Sample
 import MV.Driver.Scale
 import MV.Driver.QCI
+import MV.Driver.InvCDF
 open MV
 
 /-- ops whose handler models panics itself -/
@@ -21,6 +22,8 @@ def dispatchOp (ins outs : List J) : Verdict :=
   | .atom "smp" :: rest => Sample.handle rest outs
   | .atom "sc" :: rest => Scale.handleScale rest outs
   | .atom "qci" :: rest => QCI.handleQCI rest outs
+  | .atom "inv" :: rest => InvCDF.handleInv rest outs
+  | .atom "rnd" :: rest => InvCDF.handleRnd rest outs
   | .atom "sci" :: rest => QCI.handleSCI rest outs
   | .atom "findlevel" :: rest => Scale.handleFindLevel rest outs
   | .atom "lticks" :: rest => Scale.handleLinTicks rest outs
